@@ -75,10 +75,19 @@ def multi(tier, props_doc=True):
             M("doc_mc", "doc"), E("doc_edge", "doc", 2), E("doc_edgeo", "doc", 2), S("doc_sim", "doc", 3, 600, 50)]
 
 
+def hot(tier):
+    """three replicas contending for one key (Map key / Document object key): complete histories only - one path per
+    (operations with their timestamps, log order)"""
+    j = [E("doc_hot3_final", "doc", 3), E("map_hot3_final", "map", 3)]
+    if tier == "quick":
+        return j
+    return j + [M("doc_hot3b_mc", "doc"), M("map_hot3b_mc", "map"), E("doc_hot3b_final", "doc", 3, timeout=1800), E("map_hot3b_final", "map", 3, rate=0.3, timeout=2400)]
+
+
 def jobs(prop, tier):
     q = tier == "quick"
     if prop in ("C01", "C02"):
-        return multi(tier) + traces(tier)
+        return multi(tier) + hot(tier) + traces(tier)
     if prop == "C15":
         # identifiers also over histories with failing calls, rollbacks (aborted transactions) and remote deliveries
         extra = ([E("list_tx_edge", "list", 2, rate=0.2), E("map_txb_edge", "map", 2, rate=0.1), S("map_tx_sim", "map", 3, 40, 40),
@@ -194,9 +203,11 @@ def jobs(prop, tier):
                 [SN("snap_patch_edge", "doc")] + [SNS("snap_sim", k, 3, 60, 50) for k in ("counter", "map", "list", "doc")]) + rt
     if prop == "C16":
         f = dict(dump_module="OrdaSyncProbeDump.tla")
+        # a REST patch refused because its caller gave up while another patch held the key's lock changes nothing
+        giveup = dict(mode="go", cfg="REST patches given up by their caller", kind="doc", tool="snapreplay", args=["-patchstress", "25" if q else "600", "-seed", "{seed}"])
         if q:
-            return [dict(SE("sync_probe16_edge", 2, rate=0.12), **f), dict(SE("sync_probe16sc_edge", 2, rate=0.2), **f)]
-        return [dict(SE("sync_probe16_edge", 2), **f), dict(SE("sync_probe16sc_edge", 2), **f)]
+            return [dict(SE("sync_probe16_edge", 2, rate=0.12), **f), dict(SE("sync_probe16sc_edge", 2, rate=0.2), **f), giveup]
+        return [dict(SE("sync_probe16_edge", 2), **f), dict(SE("sync_probe16sc_edge", 2), **f), giveup]
     if prop == "C17":
         f = dict(dump_module="OrdaSyncProbeDump.tla")
         ff = dict(dump_module="OrdaSyncFaultProbeDump.tla")     # resets after a handler run cut in half by a storage fault
@@ -265,6 +276,9 @@ def assumptions(prop):
             "values are concretised from integer tags through harness/vals (ints of every width, floats, strings, pointers)"]
 
 
+panic_line = None
+
+
 def run_go_job(job, prop, tier, seed, scratch, ev, rec, ROOT, ENV, tlc, tlc_stats, Infra):
     """A harness command that drives the real code by itself (seeded) and prints one JSON summary line."""
     cmd = [os.path.join(ROOT, "bin", job["tool"])] + [a.replace("{seed}", str(seed)) for a in job["args"]]
@@ -275,11 +289,7 @@ def run_go_job(job, prop, tier, seed, scratch, ev, rec, ROOT, ENV, tlc, tlc_stat
         except subprocess.TimeoutExpired:
             raise Infra("%s did not finish within its time limit" % os.path.basename(cmd[0]))
     if p.returncode not in (0, 1):
-        pl = None
-        for line in open(errf, errors="replace"):
-            if line.startswith("panic:") or line.startswith("fatal error:"):
-                pl = line.strip()
-                break
+        pl = panic_line(errf)       # set by lib/check.py: harness-own faults raise Infra there
         if pl is None:
             raise Infra("%s failed (rc=%d): %s" % (job["tool"], p.returncode, open(errf, errors="replace").read()[-600:]))
         v = dict(property=prop, kind=job.get("kind", ""), n=0, why="the process died: " + pl, steps=[{"name": " ".join(cmd)}], tool=job["tool"],
